@@ -404,6 +404,9 @@ func run(t *testing.T) {
 					tr.Dirs = []string{"."}
 				}
 				op := gen.Op(rt, tr, names, 4, false)
+				if op.K == "chmod" && rapid.IntRange(0, 2).Draw(rt, "special") == 0 {
+					op.Perm |= rapid.SampledFrom(ops.SpecialBits).Draw(rt, "specialbit") // set-uid / set-gid / sticky travel with a mode too
+				}
 				if rapid.IntRange(0, 5).Draw(rt, "asopen") == 0 {
 					op = ops.Op{K: "open", P: op.P}
 				}
